@@ -6,6 +6,7 @@ The JSON policy format (EST), expression level.  Mirrors cedar-policy-core/src/e
  * `toExpr`  : `Deserialize for est::Expr` (single-key object; extension-function keys first; typed bodies
                with `deny_unknown_fields`) followed by `est::Expr::try_into_ast`
  * `valueToExpr` : `CedarValueJson` (`__entity` / `__extn` / `__expr` escapes, sets, records) and `into_expr`
+`&&` / `||` are built with the AST's folding constructors (`mkAnd`, `mkOr`).
 Lowering done by `try_into_ast`: `!=` ↦ `!(==)`, `>` ↦ `!(<=)`, `>=` ↦ `!(<)`, `has a.b.c` ↦ left-nested `&&`
 of `has` over `.`-chains, `is T in e` ↦ `(x is T) && (x in e)`.
 Recursion is structural: every member of a body object is parsed as an expression first (`toExprFields`)
@@ -225,10 +226,22 @@ def readStrs : List Json → R (List String)
   | .str s :: xs => do let ss ← readStrs xs; .ok (s :: ss)
   | _ :: _ => .error .shape
 
+/-- `ast::ExprBuilder::and`: two Boolean literals are folded (ast/expr.rs) -/
+def mkAnd (a b : Expr) : Expr :=
+  match a, b with
+  | .lit (.bool x), .lit (.bool y) => .lit (.bool (x && y))
+  | _, _ => .and a b
+
+/-- `ast::ExprBuilder::or`: two Boolean literals are folded -/
+def mkOr (a b : Expr) : Expr :=
+  match a, b with
+  | .lit (.bool x), .lit (.bool y) => .lit (.bool (x || y))
+  | _, _ => .or a b
+
 /-- `ExprBuilder::extended_has_attr` (the left fold of `expr_builder.rs`) -/
 def extHasFold : Expr × Expr → List String → Expr × Expr
   | acc, [] => acc
-  | (h, g), a :: as => extHasFold (.and h (.hasAttr g a), .getAttr g a) as
+  | (h, g), a :: as => extHasFold (mkAnd h (.hasAttr g a), .getAttr g a) as
 
 def extendedHas (e : Expr) (a : String) (as : List String) : Expr :=
   (extHasFold (.hasAttr e a, .getAttr e a) as).1
@@ -254,8 +267,8 @@ def nodeOfFields (k : String) (fields : List (String × Json)) (fs : List (Strin
   | "<=" => readLR fields fs (.binaryApp .lessEq)
   | ">" => readLR fields fs (fun a b => .unaryApp .not (.binaryApp .lessEq a b))
   | ">=" => readLR fields fs (fun a b => .unaryApp .not (.binaryApp .less a b))
-  | "&&" => readLR fields fs .and
-  | "||" => readLR fields fs .or
+  | "&&" => readLR fields fs mkAnd
+  | "||" => readLR fields fs mkOr
   | "+" => readLR fields fs (.binaryApp .add)
   | "-" => readLR fields fs (.binaryApp .sub)
   | "*" => readLR fields fs (.binaryApp .mul)
@@ -295,7 +308,7 @@ def nodeOfFields (k : String) (fields : List (String × Json)) (fs : List (Strin
       let ty ← getS fields "entity_type"
       if validName ty then do
         let l ← getR fs "left"; let r ← getR fs "in"
-        .ok (.and (.is l ty) (.binaryApp .mem l r))
+        .ok (mkAnd (.is l ty) (.binaryApp .mem l r))
       else .error .badName
     else .error .shape
   | "if-then-else" =>
